@@ -252,7 +252,9 @@ def _explain(req, impl):
     if le is None:
         return None
     lost, extra = le
-    if len(lost) >= 40:
+    # the harness lists at most 400 lost quads (a 40-cell list with typed cells has < 200): a truncated list cannot be
+    # checked quad by quad, so it is never accepted
+    if len(lost) >= 400:
         return None
     classes = set()
     if opts["dir"] == "i":
